@@ -644,8 +644,8 @@ def reformat_sequences(ctx: Ctx, values):
         seq, last = [], None
         for _ in range(rng.randrange(2, 5)):
             k, kw = spec()
-            if k in ("base", "rating") and not (isinstance(x, int) or float(x).is_integer()) and k == "rating":
-                continue
+            if k == "rating" and not (0 <= x <= 50):
+                continue   # a rating displays `value` stars: only small values
             log = [k, {a: (v.name if hasattr(v, "name") else v) for a, v in kw.items()}]
             try:
                 table.set_cell_formatting(0, 0, k, **kw)
